@@ -5,8 +5,6 @@ import (
 	"context"
 	"encoding/json"
 	"fmt"
-	"os"
-	"path/filepath"
 
 	"github.com/grafana/cog/internal/ast"
 )
@@ -60,19 +58,12 @@ func doConsolidate(config string, params map[string]string) (res consolidateResu
 
 func init() {
 	commands["consolidate"] = func(in *bufio.Scanner, out *bufio.Writer) error {
-		for in.Scan() {
+		return jobLoop(in, out, func(line []byte) (any, error) {
 			var job mutateJob
-			if err := json.Unmarshal(in.Bytes(), &job); err != nil {
-				return err
+			if err := json.Unmarshal(line, &job); err != nil {
+				return nil, err
 			}
-			if err := os.Chdir(filepath.Dir(job.Config)); err != nil {
-				return err
-			}
-			b, _ := json.Marshal(doConsolidate(job.Config, job.Parameters))
-			out.Write(b)
-			out.WriteByte('\n')
-			out.Flush()
-		}
-		return nil
+			return doConsolidate(job.Config, job.Parameters), nil
+		})
 	}
 }
